@@ -182,8 +182,10 @@ Fixpoint cache_lookup (k : cache) (s : sid) : option sentry :=
   | (i, e) :: r => if N.eqb i s then Some e else cache_lookup r s
   end.
 Definition cache_store (k : cache) (s : sid) (e : sentry) : cache := (s, e) :: k.
-(* storeClientSession: marks the record as client-side; it does not replace the
-   server-side record of the same session when the cache already holds one *)
+(* storeClientSession (as of /repo f157697): marks the record as client-side; a cached record
+   under the same id that is NOT client-side is never replaced (if it carries the key just
+   negotiated it is the server half of this very session and only command mappings -- not
+   modelled here -- are added; otherwise nothing is stored or mapped at all) *)
 Definition mark_client (e : sentry) : sentry :=
   {| e_key := e_key e; e_authn := e_authn e; e_user := e_user e; e_valid := e_valid e;
      e_client := true; e_auth_real := e_auth_real e |}.
